@@ -132,6 +132,19 @@ class Ctx:
             nthm += len(re.findall(r'^Print Assumptions', open(os.path.join(COQ, pf)).read(), re.M))
         self.assumptions.append(f'{closed}/{nthm} property theorems: Closed under the global context')
         ok = (rc == 0) and not bad and closed == nthm and not axioms
+        if ok and self.tier == 'thorough':
+            # independent re-check of the compiled theorems and everything they depend on (coqchk), with its own axiom report
+            mods = ['MRB.' + pf[:-2].replace('/', '.') for pf in propfiles]
+            with Lock('coq'):
+                rc2, out2 = sh(['coqchk', '-o', '-silent', '-Q', '.', 'MRB'] + mods, cwd=COQ, timeout=3000)
+            self.checker_cmds.append('coqchk -o -silent -Q . MRB ' + ' '.join(mods))
+            summary = out2[out2.find('CONTEXT SUMMARY'):] if 'CONTEXT SUMMARY' in out2 else out2[-1500:]
+            clean = rc2 == 0 and all(re.search(re.escape(k) + r'\s*<none>', summary) for k in
+                                     ('Axioms:', 'relying on type-in-type:', 'relying on unsafe (co)fixpoints:', 'positivity is assumed:'))
+            self.assumptions.append('coqchk: ' + ('Axioms <none>, no type-in-type, no unsafe fixpoints, no assumed positivity' if clean else 'NOT CLEAN'))
+            if not clean:
+                ok = False
+                return ok, 'coqchk does not accept the compiled development or reports assumptions:\n' + summary[-3000:]
         if ok: self.discharged += n
         log = out if rc != 0 else ''
         if bad: log += '\nforbidden construct: ' + '; '.join(bad)
